@@ -199,7 +199,7 @@ Lemma ca_cb_nonneg : forall t, wf t -> 0 <= ca t /\ 0 <= cb t.
 Proof.
   induction t as [w esz|e IH]; cbn [wf ca cb]; intros H.
   - lia.
-  - destruct (IH H). unfold hd. destruct (zw e); lia.
+  - destruct (IH H). unfold lhd. destruct (zw e); lia.
 Qed.
 
 Lemma lok_l0 m : mok m -> lok m l0.
@@ -215,12 +215,12 @@ Proof.
     + unfold mok in *; repeat split; try lia. discriminate.
   - cbn [wf] in Hwf. specialize (IH Hwf F).
     destruct (ca_cb_nonneg e Hwf) as [HA HB].
-    destruct (mok_malloc m hd Hm ltac:(unfold hd; lia)) as [M1 M2].
-    cbn [oll_dec]. set (m1 := m_malloc m hd) in *.
-    assert (Hcb : hd <= cb (LList e)) by (cbn [cb]; unfold hd; destruct (zw e); lia).
+    destruct (mok_malloc m lhd Hm ltac:(unfold lhd; lia)) as [M1 M2].
+    cbn [oll_dec]. set (m1 := m_malloc m lhd) in *.
+    assert (Hcb : lhd <= cb (LList e)) by (cbn [cb]; unfold lhd; destruct (zw e); lia).
     destruct (ca_cb_nonneg (LList e) Hwf) as [HA' HB'].
-    pose proof hd as Hhd_dummy; clear Hhd_dummy.
-    assert (Hhd : hd = 48) by reflexivity.
+    pose proof lhd as Hhd_dummy; clear Hhd_dummy.
+    assert (Hhd : lhd = 48) by reflexivity.
     destruct (fetch_qty bs) as [| |q r u] eqn:Eq; cbn [is_upfront andb].
     + cbn [r_m r_used r_rest r_rc]. unfold mok in *; repeat split; try lia. discriminate.
     + cbn [r_m r_used r_rest r_rc]. unfold mok in *; repeat split; try lia. discriminate.
@@ -328,10 +328,10 @@ Qed.
 
 Lemma oll_dec_list g F e bs m : oll_dec g F (LList e) bs m =
   match fetch_qty bs with
-  | QMore => mkR RMore bs 0 (m_malloc m hd)
-  | QFail => mkR RFail bs 0 (m_malloc m hd)
-  | QOk q r u => if is_upfront g && (200 <? q) && (zlen r <? q) then mkR RMore bs 0 (m_malloc m hd)
-                 else fst (oll_items g (oll_dec g F e) F q 0 true u r (m_malloc m hd) l0)
+  | QMore => mkR RMore bs 0 (m_malloc m lhd)
+  | QFail => mkR RFail bs 0 (m_malloc m lhd)
+  | QOk q r u => if is_upfront g && (200 <? q) && (zlen r <? q) then mkR RMore bs 0 (m_malloc m lhd)
+                 else fst (oll_items g (oll_dec g F e) F q 0 true u r (m_malloc m lhd) l0)
   end.
 Proof. reflexivity. Qed.
 
@@ -343,12 +343,12 @@ Proof.
   intros Hq HF Hlo. cbn zeta. rewrite oll_dec_list.
   rewrite qhdr_fetch by (pose proof (zlen_nonneg r); lia).
   cbn [is_upfront]. rewrite Z.ltb_irrefl, andb_false_r.
-  destruct (oll_items UpFront (oll_dec UpFront F (LLeaf 0 4)) F (zlen r) 0 true 9 r (m_malloc m hd) l0) as [x l'] eqn:E.
+  destruct (oll_items UpFront (oll_dec UpFront F (LLeaf 0 4)) F (zlen r) 0 true 9 r (m_malloc m lhd) l0) as [x l'] eqn:E.
   cbn [fst]. unfold zlen in E.
-  destruct (lo_malloc m l0 hd) as [A1 A2]; [unfold lo, l0 in *; simp; lia|].
+  destruct (lo_malloc m l0 lhd) as [A1 A2]; [unfold lo, l0 in *; simp; lia|].
   apply null_loop in E; [|assumption|assumption].
   destruct E as (R1 & R2 & R3 & R4 & R5).
-  unfold zlen. unfold hd in *. unfold lo in *. repeat split; try assumption; lia.
+  unfold zlen. unfold lhd in *. unfold lo in *. repeat split; try assumption; lia.
 Qed.
 
 Fixpoint tri (j : nat) : Z := match j with O => 0 | S j' => tri j' + Z.of_nat j' end.
@@ -405,15 +405,15 @@ Proof.
   assert (Eu : (200 <? Z.of_nat K) && (9 * Z.of_nat K <? Z.of_nat K) = false).
   { destruct (9 * Z.of_nat K <? Z.of_nat K) eqn:E; [lia|]. apply andb_false_r. }
   cbn [andb]. rewrite Eu.
-  destruct (oll_items UpFront (oll_dec UpFront F (LList (LLeaf 0 4))) F (Z.of_nat K) 0 true 9 (rows K) (m_malloc m0 hd) l0) as [x l'] eqn:E.
+  destruct (oll_items UpFront (oll_dec UpFront F (LList (LLeaf 0 4))) F (Z.of_nat K) 0 true 9 (rows K) (m_malloc m0 lhd) l0) as [x l'] eqn:E.
   cbn [fst].
   assert (HF1 : (K <= F)%nat) by (unfold F, zlen in *; lia).
   assert (HF2 : (length (rows K) <= F)%nat) by (unfold F, bomb; rewrite app_length; lia).
-  assert (Hlo : lo (m_malloc m0 hd) l0) by (unfold lo, m_malloc, m0, l0, hd; simp; lia).
+  assert (Hlo : lo (m_malloc m0 lhd) l0) by (unfold lo, m_malloc, m0, l0, lhd; simp; lia).
   apply rows_loop in E; [|assumption|assumption|lia|assumption].
   destruct E as (R1 & R2 & R3 & R4 & R5).
   pose proof (tri_closed K) as HT.
-  unfold m_malloc, m0, hd in R4. cbn [m_live] in R4.
+  unfold m_malloc, m0, lhd in R4. cbn [m_live] in R4.
   unfold lo in R5.
   repeat split; try assumption; try lia.
 Qed.
